@@ -68,6 +68,38 @@ Theorem C18_connect_disconnect :
 Proof. exact connect_disconnect_connect. Qed.
 Print Assumptions C18_connect_disconnect.
 
+(* "delivered to reads in arrival order, each exactly once", over the whole life of one client:
+   for EVERY interleaving of connects, disconnects, broker deliveries (messages, undecodable
+   payloads, broker errors) and reads, what the reads returned followed by what is still
+   queued is exactly what the receive loops accepted, in arrival order — a disconnect drops
+   nothing, a reconnect replays nothing *)
+Theorem C18_life_fifo :
+  forall ops s,
+    gots (snd (life_run s ops)) ++ ml_queue (fst (life_run s ops)) = ml_queue s ++ life_received s ops.
+Proof. exact life_fifo. Qed.
+Print Assumptions C18_life_fifo.
+
+Theorem C18_life_read_pending :
+  forall s, snd (life_step s LRead) = LPending <-> ml_queue s = [].
+Proof. exact life_read_pending. Qed.
+Print Assumptions C18_life_read_pending.
+
+(* never deaf after a reconnect, whatever ended reception before *)
+Theorem C18_life_reconnect_receives :
+  forall s e, ml_connected s = true ->
+    let s2 := fst (life_step (fst (life_step s LDisconnect)) LConnect) in
+    ml_queue (fst (life_step s2 (LDeliver e))) = ml_queue s ++ [entry_of e].
+Proof. exact life_reconnect_receives. Qed.
+Print Assumptions C18_life_reconnect_receives.
+
+Example C18_life_example :
+  let m := BMsg (lit "in/7/1/1/0/2") [49%N] in
+  let ops := [LRead; LConnect; LDeliver m; LDeliver BError; LDeliver m; LDisconnect; LRead; LConnect; LDeliver m; LRead; LRead; LRead] in
+  snd (life_run ml_init ops)
+  = [LPending; LDone; LDone; LDone; LDone; LDone; LGot (QLine (lit "7;1;1;0;2;1")); LDone; LDone;
+     LGot QFailed; LGot (QLine (lit "7;1;1;0;2;1")); LPending].
+Proof. vm_compute. reflexivity. Qed.
+
 (* never silently deaf: every broker message yields one entry (an undecodable payload a
    read error, and later messages are still delivered); a broker error surfaces as a
    transport error after everything that arrived before it *)
